@@ -4,7 +4,8 @@ Require Extraction.
 Require Import ExtrOcamlBasic.
 From Coq Require Import List NArith ZArith.
 From Coq.Strings Require Import Byte.
-From Mcap Require Import Bytes GoSem Crc32 Records Writer Lexer.
+From Mcap Require Import Bytes GoSem Crc32 Records Writer Lexer Reader.
 Extraction Language OCaml.
 Extraction "model.ml" Bytes.byte_of_N Byte.to_N Crc32.crc32 Writer.W Writer.file_of
-  Records.parse_header Lexer.lex_all Lexer.lex_next Lexer.new_lexer.
+  Records.parse_header Lexer.lex_all Lexer.lex_next Lexer.new_lexer
+  Reader.read_messages Reader.info Reader.new_reader Reader.get_metadata Reader.get_attachment Reader.messages_dispatch.
